@@ -173,8 +173,14 @@ type Output struct {
 	Samples    []interface{}          `json:"samples,omitempty"`
 }
 
+// activeOutput: the output under construction, so that the stall detector can hand over what was found before a lint
+// stopped returning
+var activeOutput *Output
+
 func NewOutput() *Output {
-	return &Output{Cases: map[string][]Case{}, Stats: map[string]interface{}{}, Data: map[string]interface{}{}}
+	o := &Output{Cases: map[string][]Case{}, Stats: map[string]interface{}{}, Data: map[string]interface{}{}}
+	activeOutput = o
+	return o
 }
 
 func (o *Output) Add(stream string, c Case) { o.Cases[stream] = append(o.Cases[stream], c) }
